@@ -58,7 +58,7 @@ Values ==
                    <<S("9223372036854775807"), S("9223372036854775808")>>, <<S("18446744073709551614"), S("42")>> >>,
     IntegerLong |-> << <<S("7301"), S("7302")>>, <<S("-5"), S("18446744073709551615")>> >>,
     StringLong |-> << <<StrSp(<<97, Q, 98>>), StrSp(S("c;--"))>> >>,
-    Float |-> << <<S("7301.5"), S("0.25")>>, <<S("1e3"), S("2.5E-2")>> >>,
+    Float |-> << <<S("7301.5"), S("0.25")>>, <<S("1e3"), S("2.5E-2")>>, <<S("0.0"), S("7.5")>>, <<S("-0.0"), S("0e0")>> >>,
     String |-> << <<StrSp(S("q7x")), StrSp(S("zz9"))>>, <<StrSp(<<97, Q, 98>>), StrSp(S("c;--"))>>, <<StrSp(S("%")), StrSp(S("_"))>>,
                   <<StrSp(<<>>), StrSp(S("x"))>>, <<StrSp(S("' OR '1'='1")), StrSp(<<92, 34>>)>>, <<StrSp(S("plain")), StrSp(S("with%wild"))>>,
                   \* both need LIKE escaping, and they contain the usual escape characters themselves
@@ -67,8 +67,11 @@ Values ==
     Date |-> << <<S("2031-07-03"), S("1999-12-31")>> >>,
     DateTime |-> << <<S("2031-07-03T07:31:03Z"), S("1999-12-31T23:59:59Z")>>, <<S("2031-07-03T07:31"), S("2000-01-01T00:00:00+01:00")>> >>,
     Time |-> << <<S("07:31:03"), S("23:59:59.5")>> >>,
-    Duration |-> << <<S("duration'P73D'"), S("duration'PT5M'")>>, <<S("duration'-P1DT2H'"), S("duration'P1Y'")>> >>,
-    GUID |-> << <<S("73017301-89ab-cdef-0123-456789abcdef"), S("00000000-0000-0000-0000-000000000001")>> >> ]
+    Duration |-> << <<S("duration'P73D'"), S("duration'PT5M'")>>, <<S("duration'-P1DT2H'"), S("duration'P1Y'")>>, <<S("duration'PT0S'"), S("duration'P1D'")>> >>,
+    \* the "empty" values of their kinds (nil GUID, all-ones GUID, zero duration, zero float) against ordinary ones
+    GUID |-> << <<S("73017301-89ab-cdef-0123-456789abcdef"), S("00000000-0000-0000-0000-000000000001")>>,
+                <<S("00000000-0000-0000-0000-000000000000"), S("ffffffff-ffff-ffff-ffff-ffffffffffff")>>,
+                <<S("73017301-89AB-CDEF-0123-456789ABCDEF"), S("00000000-0000-0000-0000-000000000000")>> >> ]
 
 Init == tp = 0 /\ vp = 0
 Pick == /\ tp = 0 /\ \E t \in 1..Len(Skeletons) : \E v \in 1..Len(Values[Skeletons[t][1]]) : tp' = t /\ vp' = v
